@@ -783,10 +783,16 @@ func (vm *vm) popTryFrame() {
 }
 
 func (vm *vm) restoreStacks(iterLen, refLen uint32) (ex *Exception) {
+	return vm._restoreStacks(iterLen, refLen, true)
+}
+
+// If closeIters is false the open iterators are dropped without calling their return() methods
+// (an uncatchable exception, such as an interrupt or a stack overflow, must not run any more script code).
+func (vm *vm) _restoreStacks(iterLen, refLen uint32, closeIters bool) (ex *Exception) {
 	// Restore other stacks
 	iterTail := vm.iterStack[iterLen:]
 	for i := len(iterTail) - 1; i >= 0; i-- {
-		if iter := iterTail[i].iter; iter != nil {
+		if iter := iterTail[i].iter; iter != nil && closeIters {
 			ex1 := vm.try(func() {
 				iter.returnIter()
 			})
@@ -823,7 +829,7 @@ func (vm *vm) handleThrow(arg interface{}) *Exception {
 		vm.sp = int(tf.sp)
 		vm.stash = tf.stash
 		vm.privEnv = tf.privEnv
-		_ = vm.restoreStacks(tf.iterLen, tf.refLen)
+		_ = vm._restoreStacks(tf.iterLen, tf.refLen, ex != nil)
 
 		if tf.catchPos == tryPanicMarker {
 			if ex == nil && tf.finallyPos == tryGeneratorMarker {
